@@ -10,7 +10,9 @@ import (
 
 	"github.com/tokenized/pkg/bitcoin"
 	"github.com/tokenized/pkg/wire"
+	pkgstorage "github.com/tokenized/pkg/storage"
 	"github.com/tokenized/spynode/internal/state"
+	handlerstorage "github.com/tokenized/spynode/internal/storage"
 
 	"github.com/tokenized/spynode/internal/verifrt"
 )
@@ -80,7 +82,27 @@ func VerifHarness_C14_requests() {
 	st := state.NewState()
 	st.SetInSync()
 	tr0 := state.NewTxTracker()
-	h0 := NewInvHandler(st, nil, tr0, memPool)
+	txRepo := handlerstorage.NewTxRepository(pkgstorage.NewMockStorage())
+	h0 := NewInvHandler(st, txRepo, tr0, memPool)
+	// the queue between the connections' read loops and the transaction processor, and the real
+	// handler that puts an arriving body into it
+	var txChannel TxChannel
+	txChannel.Open(10)
+	txHandler := NewTXHandler(st, &txChannel)
+	queued := []bool{false, false} // arrived, still waiting for the transaction processor
+	process := func() {
+		for len(txChannel.Channel) > 0 {
+			td := <-txChannel.Channel
+			// (what processUnconfirmedTx does first)
+			conns[0].tracker.Remove(ctx, *td.Msg.TxHash())
+			memPool.AddTransaction(ctx, td.Msg, td.Trusted)
+			for k := range txids {
+				if txids[k] == *td.Msg.TxHash() {
+					queued[k] = false
+				}
+			}
+		}
+	}
 	conns = append(conns, &c14Conn{id: 0, tracker: tr0, inv: h0.Handle, log: &log, txids: txids})
 	for i := 1; i < nConns; i++ {
 		us := state.NewUntrustedState()
@@ -104,7 +126,7 @@ func VerifHarness_C14_requests() {
 		verifrt.Advance(time.Duration(d))
 		now := verifrt.NowNanos()
 		before := len(log)
-		kind := verifrt.Choose(steps[e]+".event", 4)
+		kind := verifrt.Choose(steps[e]+".event", 5)
 		switch kind {
 		case 0: // inventory announcement on a connection
 			c := conns[verifrt.Choose(steps[e]+".conn", nConns)]
@@ -138,12 +160,21 @@ func VerifHarness_C14_requests() {
 				}
 			}
 			verifrt.Reach("C14.event.inv")
-		case 1: // the body of tx0 or tx1 arrives and is processed
+		case 1: // the body of tx0 or tx1 arrives; the transaction processor takes it at once, or is
+			// busy (it waits for the block processor's lock) and takes it at a later event
 			k := verifrt.Choose(steps[e]+".tx", 2)
-			conns[0].tracker.Remove(ctx, txids[k])
-			memPool.AddTransaction(ctx, txs[k], false)
+			_, herr := txHandler.Handle(ctx, txs[k])
+			verifrt.Assert(herr == nil, "C14.body.handled")
 			arrived[k] = true
+			queued[k] = true
+			if verifrt.Choose(steps[e]+".processor-busy", 2) == 0 {
+				process()
+			} else {
+				verifrt.Reach("C14.event.body-queued")
+			}
 			verifrt.Reach("C14.event.body")
+		case 4: // the transaction processor runs
+			process()
 		case 2: // periodic check on a connection
 			c := conns[verifrt.Choose(steps[e]+".conn", nConns)]
 			err := c.tracker.Check(ctx, memPool, c)
@@ -190,7 +221,11 @@ func VerifHarness_C14_requests() {
 		// safety on everything emitted in this step
 		for _, em := range log[before:] {
 			k := em.tx
-			verifrt.Sig("getdata", "after-arrival")
+			if queued[k] {
+				verifrt.Sig("getdata", "after-arrival", "body still waits for the transaction processor")
+			} else {
+				verifrt.Sig("getdata", "after-arrival")
+			}
 			verifrt.Assert(!arrived[k], "C14.request.none-after-the-body-arrived")
 			verifrt.Sig("getdata", "after-confirmation")
 			verifrt.Assert(!confirmed[k], "C14.request.confirmed-announcements-are-forgotten")
